@@ -6,6 +6,24 @@ ROOT = os.path.dirname(os.path.dirname(os.path.abspath(__file__)))
 
 # id -> (category, technique, text, note, design_ref)
 CHECKS = {
+ "C02": ("exploration", "property-based testing + exhaustive small-matrix enumeration: SortVoting vs subset-DP optimal assignment",
+         "Level A: the voting engine on every weight matrix of shape <=3x3 over a grid straddling the threshold (exhaustive) and on random matrices up to 8x8 with shuffled arrival order; the result must be one-to-one over reported pairs, never below the gate, and its total must equal the DP optimum with 'unmatched = threshold'.",
+         "Totals compared within rows*(2e-6 + 4e-7*max|w|) (1e-6 integerisation, f32 scaling). Tracker-level part (level B) is added by the tracker harness.", "3/C02"),
+ "C07": ("exploration", "property-based testing: generated predict/update sequences vs dense f64 textbook Kalman filter; exact cost/gate relations",
+         "Generated measurement sequences (<=300 steps, seven motion modes) compared step by step with an independent dense f64 filter: mean, covariance (symmetry, SPD by f64 Cholesky, entries), distance against the filter's own state and against the reference; stationary objects; vector filter bit-equal to point filters; cost conversions exact for every generated d incl. +-3 ulp around each chi-square entry.",
+         "Tolerances >= 5x measured f32 drift inside the regular envelope (height within x10, <=3 predict-only steps in a row). Outside it only finiteness/SPD/no-panic are asserted and D10 is a listed known finding.", "3/C07"),
+ "C14": ("exploration", "property-based testing: validity predicate over NMS output with independent coverage oracle; idempotence",
+         "Generated clustered/duplicated/nested/rotated lists with score modes and thresholds; the output must be references into the input, valid, filter-passing, rank-ordered, top-ranked first, no kept box covered beyond the threshold by a higher-ranked kept box, every dropped box so covered by one, and a second application is the identity.",
+         "Coverage computed with oracle/geom.rs; band 2e-4 around the nms threshold and score==threshold accept either outcome.", "3/C14"),
+ "C15": ("exploration", "property-based testing in child processes: inclusion-exclusion / exact grid-count oracle, permutation metamorphic relation, hang detection",
+         "Generated sets of 1..8 boxes (integer grid exact, axis-aligned, rotated, near-degenerate) evaluated in child processes; share vs uncovered fraction, range, free boxes = 1, order independence, completion (panic / 10 s time-out).",
+         "Known finding D9 (geo 0.27 boolean ops panic / hang / wrong region) is excused only for inputs that satisfy the objective degeneracy predicate (a vertex within 1e-4 of an edge of another box); general-position inputs are never excused.", "3/C15"),
+ "C17": ("exploration", "property-based testing: reference re-implementation of the counting rules, all permutations of small streams",
+         "Generated streams for TopN / BestFit / Hungarian voting checked against an f64 re-implementation written from the statement; validity under ties; order independence under random permutations and under all n! permutations of 2..5-item streams.",
+         "Weights within 1e-6 relative; weights closer than 1e-3 count as ties.", "3/C17"),
+ "C20": ("exploration", "exhaustive enumeration of constraint tables and probes vs reference lookup",
+         "Every table over <=3 configured gaps in 0..8 x 5 limits, with duplicates and insertion orders, probed at gaps 0..10 x 32 distances (each limit +-2 ulp) against 'limit of the smallest configured gap >= d, first insertion wins'; monotone in distance; builder = add_constraints. Tracker-level part is added by the tracker harness.",
+         "Table level is exhaustive for the enumerated space only.", "3/C20"),
  "C08": ("exploration", "property-based testing: generated box pairs vs independent f64 convex-clipping oracle; metamorphic rigid motions",
          "Generated-input search (proptest, shrinking) over constructed pair configurations against an independent f64 geometry kernel with stated tolerances, plus symmetry/range/identity/rigid-motion relations and the soundness of the too_far pre-filter. Held-on-everything-explored, not a proof.",
          "Trusts oracle/geom.rs (self-checked for symmetry per case); tolerances 1e-4 of the smaller area (+ eps64*coord^2 term for the absolute-coordinate clipper), IoU 2e-4; touching configurations three-valued.", "3/C08"),
